@@ -41,6 +41,12 @@ def configs(tier, seed):
                     continue
                 for mode in ("uf", "fresh"):
                     out.append(dict(kind="oks", n_gt=g, n_pr=p, nodes=n, coco=coco, scale=scale, stddev="sym" if (g, p, n) == (1, 1, 2) and mode == "uf" else 0.125, mode=mode))
+    # independent NaN flag per coordinate (a point with only x or only y missing); explicit scale so that the bbox-area
+    # normalisation (np.nanmin/nanmax per coordinate) does not enter the reference
+    for (g, p, n) in [(1, 1, 1), (1, 1, 2)] + ([(2, 1, 1), (1, 2, 1)] if tier == "thorough" else []):
+        for coco in (True, False):
+            for mode in ("uf", "fresh"):
+                out.append(dict(kind="oks", n_gt=g, n_pr=p, nodes=n, coco=coco, scale="sym", stddev=0.125, mode=mode, per_coord=True))
     for (g, n) in [(1, 2), (2, 1)] + ([(1, 3), (2, 2)] if tier == "thorough" else []):
         out.append(dict(kind="mono", n_gt=g, nodes=n, coco=True))
         out.append(dict(kind="invariance", n_gt=g, nodes=n, coco=True))
@@ -73,8 +79,11 @@ def _install():
     return ev, tu
 
 
+PER_COORD = [False]  # flag mode of the current configuration: one NaN flag per point, or one per coordinate
+
+
 def _pts(name, n_inst, nodes):
-    """(n_inst, nodes, 2) object array, one missing flag per point."""
+    """(n_inst, nodes, 2) object array; one missing flag per point, or (PER_COORD) an independent flag per coordinate."""
     import numpy as np
     from symx.xf import XF
     from symx.numpyfe import SymNd
@@ -82,8 +91,9 @@ def _pts(name, n_inst, nodes):
     for i in range(n_inst):
         for n in range(nodes):
             fl = z3.Bool(f"{name}_{i}_{n}#nan")
+            fy = z3.Bool(f"{name}_{i}_{n}_y#nan") if PER_COORD[0] else fl
             a[i, n, 0] = XF(z3.Real(f"{name}_{i}_{n}_x"), fl)
-            a[i, n, 1] = XF(z3.Real(f"{name}_{i}_{n}_y"), fl)
+            a[i, n, 1] = XF(z3.Real(f"{name}_{i}_{n}_y"), fy)
     return a.view(SymNd)
 
 
@@ -92,10 +102,9 @@ def _pts_from_env(name, n_inst, nodes, env):
     for i in range(n_inst):
         inst = []
         for n in range(nodes):
-            if env[f"{name}_{i}_{n}#nan"]:
-                inst.append([float("nan"), float("nan")])
-            else:
-                inst.append([float(env[f"{name}_{i}_{n}_x"]), float(env[f"{name}_{i}_{n}_y"])])
+            xn = bool(env[f"{name}_{i}_{n}#nan"])
+            yn = bool(env[f"{name}_{i}_{n}_y#nan"]) if PER_COORD[0] else xn
+            inst.append([float("nan") if xn else float(env[f"{name}_{i}_{n}_x"]), float("nan") if yn else float(env[f"{name}_{i}_{n}_y"])])
         out.append(inst)
     return out
 
@@ -111,8 +120,8 @@ def _ref_oks(gt, pr, i, j, nodes, coco, scale_i, stddev, exp):
     nvis = Fraction(0)
     for n in range(nodes):
         gx, gy, px, py = gt[i, n, 0], gt[i, n, 1], pr[j, n, 0], pr[j, n, 1]
-        gvis = Not(gx.nan)
-        pvis = Not(px.nan)
+        gvis = Not(Or(gx.nan, gy.nan))
+        pvis = Not(Or(px.nan, py.nan))
         d2 = xf.radd(xf.rmul(xf.rsub(gx.v, px.v), xf.rsub(gx.v, px.v)), xf.rmul(xf.rsub(gy.v, py.v), xf.rsub(gy.v, py.v)))
         if coco:
             norm = xf.rmul(xf.rmul(4, xf.rmul(stddev, stddev)), xf.rmul(2, xf.radd(scale_i, EPS)))
@@ -152,6 +161,7 @@ def _run_oks(cfg):
     from symx.harness import Report, discharge, discharge_all
     ev, tu = _install()
     rep = Report(cfg)
+    PER_COORD[0] = bool(cfg.get("per_coord"))
     G, P, N, coco = cfg["n_gt"], cfg["n_pr"], cfg["nodes"], cfg["coco"]
     base = []
     if cfg["stddev"] == "sym":
@@ -195,8 +205,8 @@ def _run_oks(cfg):
                           extract(m, DefaultEnv(model_env(m))))
             continue
         rep.record("T-no-exception", "unsat")
-        miss_g = [[ex.query([xf.zb(gt[i, n, 0].nan)]).status == "sat" for n in range(N)] for i in range(G)]
-        miss_p = [[ex.query([xf.zb(pr[j, n, 0].nan)]).status == "sat" for n in range(N)] for j in range(P)]
+        miss_g = [[ex.query([xf.zb(Or(gt[i, n, 0].nan, gt[i, n, 1].nan))]).status == "sat" for n in range(N)] for i in range(G)]
+        miss_p = [[ex.query([xf.zb(Or(pr[j, n, 0].nan, pr[j, n, 1].nan))]).status == "sat" for n in range(N)] for j in range(P)]
         rep.witness("path-with-missing-gt-node", any(any(r) for r in miss_g))
         rep.witness("path-with-missing-pr-node", any(any(r) for r in miss_p))
         rep.witness("path-all-visible", not any(any(r) for r in miss_g) and not any(any(r) for r in miss_p))
@@ -228,6 +238,7 @@ def _run_oks(cfg):
 
 
 def _run_mono(cfg):
+    PER_COORD[0] = False
     """moving ONE predicted keypoint farther from its target never increases OKS."""
     from symx import xf, numpyfe
     from symx.xf import XF, And, Or, Not, rcmp
@@ -270,6 +281,7 @@ def _run_mono(cfg):
 
 
 def _run_inv(cfg):
+    PER_COORD[0] = False
     """translation invariance and permutation equivariance (the latter needs n_pr = 2 in one call)."""
     import numpy as np
     from symx import xf, numpyfe
@@ -358,6 +370,7 @@ class _Frame:
 
 
 def _run_match(cfg):
+    PER_COORD[0] = False
     from symx import xf, numpyfe
     from symx.xf import XF, And, Or, Not, rcmp
     from symx.explorer import Explorer, model_env, DefaultEnv
@@ -411,6 +424,7 @@ def _run_match(cfg):
 
 
 def _run_assign(cfg):
+    PER_COORD[0] = False
     import numpy as np
     from symx import xf, numpyfe
     from symx.xf import XF, And, Or, Not, rcmp
@@ -474,6 +488,7 @@ def _run_assign(cfg):
 
 
 def _run_scores(cfg):
+    PER_COORD[0] = False
     """IoU in [0,1] for well-formed boxes; -distance <= 0; cosine similarity in [-1,1]."""
     import numpy as np
     from symx import xf, numpyfe
@@ -509,6 +524,7 @@ def _run_scores(cfg):
 
 
 def _validate(cfg):
+    PER_COORD[0] = False
     import numpy as np
     from symx import xf, numpyfe, stubs
     from symx.xf import XF, eval_xf
@@ -593,6 +609,7 @@ def _validate(cfg):
 # ------------------------------------------------------------------ replay against real numpy / scipy
 def replay(cfg, inputs, obligation):
     import numpy as np, warnings
+    PER_COORD[0] = bool(cfg.get("per_coord"))
     from symx.harness import unjson_float
     import sleap_nn.evaluation as ev
     import sleap_nn.tracking.utils as tu
